@@ -62,6 +62,12 @@ def failing_bodies():
         B.append(("tail-discard-left-%d" % k, "global (gopanic, goindex, gopanicmap)\nvar f\nf = func(n) { if n == 0 { %s }; f(n - 1) }\nf(2)\nreturn 1" % fail))
         B.append(("tail-discard-then-call-%d" % k, "global (gopanic, goindex, gopanicmap)\nvar f\nf = func(n) { if n == 0 { %s }; f(n - 1) }\nh := func() { try { f(3) } catch { return 7 } }\n"
                   "a := h()\ng := func(v) { return v + 40 }\nreturn [a, g(2), h(), g(3)]" % fail))
+    # a function of more than 64 KiB of instructions: try statements whose catch and finally addresses lie beyond 65535
+    # (and on both sides of it) take a Go panic, a thrown error and a runtime error
+    pad = "\n".join("  n = n + 1" for _ in range(9000))
+    for k, fail in enumerate(["gopanic()", "throw \"x\"", "n = n / (n - n)"]):
+        B.append(("big-function-finally-%d" % k, "global gopanic\nbig := func(n) {\n  fin := 0\n  try {\n    try {\n%s\n    } finally { fin += 1 }\n    try { %s } finally { fin += 10 }\n  } catch e {\n    return [\"caught\", fin, n]\n  }\n  return [\"no error\", fin]\n}\nreturn big(0)" % (pad, fail)))
+        B.append(("big-function-catch-%d" % k, "global gopanic\nbig := func(n) {\n  fin := 0\n%s\n  try { %s } catch e { fin += 5 } finally { fin += 10 }\n  try { fin += 100 } finally { fin += 1000 }\n  return [fin, n]\n}\nreturn big(0)" % (pad, fail)))
     B.append(("callback-panic-in-loop-try", "global gopanic\nout := []\nfor i := 0; i < 3; i++ { try { gopanic() } catch e { out = append(out, i) } }\nreturn out"))
     return B
 
@@ -142,6 +148,11 @@ def run(rep, br, proofs, rng, tier):
             v = vlib.sexp_str(r[1]) if k == "ok" else vlib.sexp_str(r)
             if v != "(a (i 7) (i 42) (i 7) (i 43))":
                 fails.append((c, "after a frame re-used by a discarded self call was left by a failure, functions called later in the same run must return their values: expected [7, 42, 7, 43], got %s" % v[:300])); continue
+        if c["name"].startswith("big-function-") and c["id"].split(".")[-2] == "0":
+            v = vlib.sexp_str(r[1]) if k == "ok" else vlib.sexp_str(r)
+            want = "(a (s x636175676874) (i 11) (i 9000))" if "finally" in c["name"] else "(a (i 1115) (i 9000))"
+            if v != want:
+                fails.append((c, "try statements beyond the first 64 KiB of a function: expected %s, got %s" % (want, v[:300]))); continue
         if c["name"].startswith("child-") and c["id"].split(".")[-2] == "0":
             v = vlib.sexp_str(r[1]) if k == "ok" else vlib.sexp_str(r)
             if v != "(a (i 7) (i 8) (i 2) (i 3) (i 3))":
@@ -155,7 +166,7 @@ def run(rep, br, proofs, rng, tier):
         rep.violation({"property": "C06", "kind": "oracle", "why": why, "case": c["line"][:2000], "script": c["src"]})
     rep.coverage.update({
         "evaluations": len(cases), "distinct_nontrivial": sum(v for k, v in classes.items() if k == "err"),
-        "rule": "programs built to fail (zero division and remainder, negative shifts, bad indexes and slices, calls of non-callables, failing builtins, Go callbacks that panic or index out of range, recursion to depth 1000..1025 and unbounded, frames with 1..250 locals recursing to the value-stack limit with and without a callback panic at the edge, array literals and calls of 2030..5000 elements around the 2048-slot stack, variadic calls at depth, throws and panics inside catch and finally, frames re-used by a discarded self call in tail position and left by a panic or error, Go panics, errors and stack overflow inside a script function which the host calls back through a pooled or unpooled Invoker, also nested), each bare, inside try/catch, try/finally, try/catch/finally and inside a called function, with and without arguments; every use of a parameter (return, index, selector, call, operators, builtins, for-in, spread, throw, assignment through it) x arguments of every type incl. host-side objects in unusual states (ObjectPtr and SyncMap without a value, a Function without a Go function, an empty RuntimeError, containers of those); keys whose conversion to a string panics used as index of every container, the container used again afterwards (such a run must end); run with recovery enabled under recover(), followed by a known script on the same VM compared with a new VM; non-trivial = the run ended with a uGO error",
+        "rule": "programs built to fail (zero division and remainder, negative shifts, bad indexes and slices, calls of non-callables, failing builtins, Go callbacks that panic or index out of range, recursion to depth 1000..1025 and unbounded, frames with 1..250 locals recursing to the value-stack limit with and without a callback panic at the edge, array literals and calls of 2030..5000 elements around the 2048-slot stack, variadic calls at depth, throws and panics inside catch and finally, try statements beyond the first 64 KiB of a function, frames re-used by a discarded self call in tail position and left by a panic or error, Go panics, errors and stack overflow inside a script function which the host calls back through a pooled or unpooled Invoker, also nested), each bare, inside try/catch, try/finally, try/catch/finally and inside a called function, with and without arguments; every use of a parameter (return, index, selector, call, operators, builtins, for-in, spread, throw, assignment through it) x arguments of every type incl. host-side objects in unusual states (ObjectPtr and SyncMap without a value, a Function without a Go function, an empty RuntimeError, containers of those); keys whose conversion to a string panics used as index of every container, the container used again afterwards (such a run must end); run with recovery enabled under recover(), followed by a known script on the same VM compared with a new VM; non-trivial = the run ended with a uGO error",
         "samples": [cases[0]["src"], cases[-1]["src"]],
         "outcome_classes": classes, "oracle_failures": len(fails)})
 
